@@ -173,6 +173,18 @@ impl Space for C15Space {
     }
 }
 
+pub fn replay_spaces(tier: &str) -> Vec<Box<dyn Space>> {
+    let binary = std::env::current_exe().unwrap().to_string_lossy().to_string();
+    families(tier)
+        .into_iter()
+        .enumerate()
+        .map(|(fi, (fam, labels))| {
+            let cfg = SweepCfg { binary: binary.clone(), mode: "c15".into(), tier: tier.to_string(), family_index: fi, workers: 4, horizon: Duration::from_secs(120), budget: 4 << 30, chunk: 1 };
+            Box::new(C15Space { cfg, fam, labels }) as Box<dyn Space>
+        })
+        .collect()
+}
+
 pub fn run(tier: &str) -> i32 {
     let t0 = Instant::now();
     let known = Known::load();
